@@ -577,6 +577,21 @@ fn oracle(case: &Case, ctx: &mut CaseCtx) -> Outcome {
                         "idle-closed-too-late",
                         "negotiated idle timeout {m} ms, application quiet since {quiet_start} us, connection ended only at {first} us"
                     );
+                    // the timeout is negotiated: both endpoints end on their own, neither may stay open
+                    // because the non-zero value was only advertised by its peer
+                    for (who, t) in [("client", &obs.client_term), ("server", &obs.server_term)] {
+                        if who == "server" && !obs.server_accepted {
+                            continue;
+                        }
+                        ensure!(
+                            t.as_ref().is_some_and(|(at, _)| *at <= quiet_start + 2 * m_us + 4 * lat + 2_000_000),
+                            format!("idle-timeout-never-fired:{who}"),
+                            "negotiated idle timeout {m} ms (client advertises {} ms, server {} ms), application quiet since {quiet_start} us: the {who} ended at {:?}, the other side at {first} us",
+                            case.client_idle_ms,
+                            case.server_idle_ms,
+                            t.as_ref().map(|x| x.0)
+                        );
+                    }
                     ctx.class("idle:fired");
                 }
             }
